@@ -179,13 +179,25 @@ def replay_e2e(obj, pred):
         shutil.rmtree(tmp, ignore_errors=True)
 
 
+def _num(h):
+    """hex float of the dump -> exact rational string as the model prints it"""
+    from fractions import Fraction
+    try:
+        f = Fraction(float.fromhex(h))
+    except ValueError:
+        return h
+    return str(f.numerator) if f.denominator == 1 else "%d/%d" % (f.numerator, f.denominator)
+
+
 def proj_dump(x):
-    """the part of the public-API dump the pass-engine model also yields: glyph ids, association, attachment parent / first child"""
+    """the part of the public-API dump the pass-engine model also yields: glyph ids, association, attachment parent / first
+    child, origin and advance in design units (the dump was made without a font), and the segment advance"""
     d = segspec.parse_dump(x)
     if d is None:
         return x.split()[0] if x else "empty"
-    return ("n=%d walk=%d " % (d["n"], d["walk"]) + " ".join("s:%d,%d,%d,%d,%d,%d" % (s["gid"], s["before"], s["after"], s["original"], s["parent"], s["child"])
-                                                            for s in d["slots"])).strip()
+    return ("n=%d walk=%d adv=%s,%s " % (d["n"], d["walk"], _num(d["adv"][0]), _num(d["adv"][1]))
+            + " ".join("s:%d,%d,%d,%d,%d,%d,%s,%s,%s" % (s["gid"], s["before"], s["after"], s["original"], s["parent"], s["child"], _num(s["ox"]), _num(s["oy"]), _num(s["ax"]))
+                       for s in d["slots"])).strip()
 
 
 def shape_stage(ctx, res, nfonts, ntexts, as_failure=False, gen_kw=None):
